@@ -691,7 +691,11 @@ def c14(sc, V, counters=None):
                     failed_start[wn] = l[4]
                 if l[4] == "before_signal":
                     nxt = s.lines[i + 1] if i + 1 < len(s.lines) else None
-                    sent = nxt is not None and nxt[0] == "sig" and nxt[4] == ""
+                    # "that signal": the one to the worker the hook was asked about — a following signal to a
+                    # child (signal ... recursive / children) is a different delivery, not gated by the hook
+                    wb = s.before.w(wn)
+                    own = set(p[0] for p in wb["procs"]) if wb else set()
+                    sent = nxt is not None and nxt[0] == "sig" and nxt[4] == "" and nxt[1] in own
                     if not eff and sent and nxt[2] != 9:
                         f.append({"sig": "vetoed-signal-sent", "step": s.n, "msg": "before_signal said no, signal %d sent to %d" % (nxt[2], nxt[1])})
                     if not eff and (not sent) and _sigkill_intended(s, i):
